@@ -17,6 +17,7 @@ class Obs:
         m = world.module
         self.sections = {}
         self.reordered = False
+        self.pad_notes = []
         self.align = {}
         at = m.aux_data.get("alignment")
         if at is not None:
@@ -231,10 +232,13 @@ def _pad_ok(world, o, obs, r, p, final=False):
         return True
     nxt = [b for (b, off, size, kind) in o.blocks if off == r + p]
     al = max((obs.align.get(b.uuid, 1) for b in nxt), default=1)
-    if al <= 1 or p >= al:
+    if al <= 1:
         return False
-    if o.addr is not None and (o.addr + r + p) % al:
-        return False
+    # Padding is computed when the intervals are re-joined, before a
+    # possible re-layout moves the interval; whether it is minimal and still
+    # leaves the block aligned afterwards is judged by C10, not here.
+    if p >= al or (o.addr is not None and (o.addr + r + p) % al):
+        obs.pad_notes.append({"unit": o.unit, "offset": r, "length": p, "alignment": al, "address": None if o.addr is None else o.addr + r + p})
     return True
 
 
